@@ -1,7 +1,7 @@
 """Symbolic interpretation of the two model-package readers (Models._read_version_1/_2)."""
 from . import alg
 from .alg import Poly, P, B, C, L, sym, mk_fn
-from .interp import Interp, Hooks, Arr, Obj, Unk, GenList, symarr, scalar, num, unit_atom
+from .interp import Interp, Hooks, Arr, Obj, Unk, GenList, symarr, scalar, num, unit_atom, decide_with, index_atom
 from .astutil import up
 
 W, M, D, A, N = 'w', 'm', 'd', 'a', 'n'
@@ -15,11 +15,24 @@ class ReaderHooks(Hooks):
         self.from_cube = []
 
     def decide(self, interp, test, env, mod):
-        t = up(test).replace(' ', '')
-        if t == 'ifilt==0':
-            return True          # generic iteration: the first-iteration initialisation is part of it
-        if t == 'distance_range_kpc[0]==distance_range_kpc[1]':
-            return self.same
+        """first-iteration initialisation (`ifilt == 0`) is part of the generic iteration; the two ends of the
+        distance range are equal / different by configuration.  Decided on the value of the test."""
+        try:
+            v = interp.expr(test, dict(env), mod)
+        except Exception:
+            return None
+        if isinstance(v, Arr) and v.ndim == 0 and not v.poly.is_const():
+            syms, fns = alg.leaf_syms(v.poly)
+            if syms == {'idx:' + W} and not fns:
+                return decide_with(interp, test, env, mod, consts={index_atom(W): 0})
+            if syms <= {'dr', 'unit:kpc'} and fns <= {'at', 'ln'} and syms & {'dr'}:
+                kpc = sym('unit:kpc')
+                drv = sym('dr', 'two') / kpc
+                d0 = mk_fn('at', B('two', drv), P(Poly()))
+                d1 = mk_fn('at', B('two', drv), P(Poly.const(1)))
+                f = alg.Facts()
+                (f.assume_true if self.same else f.assume_false)(alg.eq(d0, d1))
+                return decide_with(interp, test, env, mod, facts=f)
         return None
 
     def opaque(self, interp, fi, args, kwargs, node):
